@@ -236,8 +236,28 @@ def correspond(ctx):
             expected[dc] = "OK " + (pt.hex() or "-")
             sym_cases.append(dc)
     dist["two-recipient and rewrap histories"] = len(hist)
+    # ---- 5b. ONE call with a key SET (array and {"keys": ...}) x recipient template forms: every recipient key
+    #          recovers the plaintext (symmetric families also on the model, ECDH-ES / mixed on the implementation)
+    ksets = []
+    for fam, ks in (("A128KW", [G.oct_key(rnd, 16) for _ in range(3)]),
+                    ("A256GCMKW", [dict(G.oct_key(rnd, 32), alg="A256GCMKW") for _ in range(2)]),
+                    ("ECDH-ES+A128KW", [k for k in (keys.get("P-256"), keys.get("P-384")) if k]),
+                    ("mixed", [k for k in (G.oct_key(rnd, 16), keys.get("P-256"), G.oct_key(rnd, 32)) if k])):
+        for tk, rcp in (("object with header", {"header": {"purpose": "c04"}}), ("empty object", {}), ("none", None)):
+            for shape in ("array", "jwkset"):
+                karg = ks if shape == "array" else {"keys": ks}
+                ksets.append(("jweenc\t%s\t%s\t%s\t%s" % (J({"protected": {"enc": "A128GCM"}}), "-" if rcp is None else J(rcp), J(karg), b"key set".hex()), fam, ks, tk))
+    for (c, fam, ks, tk), o in zip(ksets, G.harness(bdir, [k[0] for k in ksets])):
+        if o == "ERR" or o.startswith("CRASH"):
+            rep.violation("keyset-enc-failed:%s:%s" % (fam, tk), "jose_jwe_enc to a key set (%s, template %s) failed: %s" % (fam, tk, o[:60]), {"case": c})
+            continue
+        for k in ks:
+            dc = "jwedec\t%s\t-\t%s" % (o, J(k))
+            expected[dc] = "OK " + b"key set".hex()
+            (sym_cases if fam in ("A128KW", "A256GCMKW") else pk_cases).append(dc)
+    dist["key sets x recipient template forms"] = len(ksets)
     st = runner.standard(ctx, sym_cases + sym_vec, oracle, lambda c, o: o.startswith("OK"), on_disagree=on_disagree,
-                         rule="jose_jwe_enc over key-management x content-encryption x zip x aad x plaintext lengths (0, 1, 15, 16, 17, 4352[, 70000]) with parameters in protected or split headers; every recipient key decrypts in jose AND on the independent model; ciphertext and tag bit-identical to the model's re-encryption under the same CEK and IV; model-produced tokens decrypt in jose; RFC 7520 section 5 examples; two-recipient tokens, a foreign key, and re-wrapping of a recovered CEK to a third recipient",
+                         rule="jose_jwe_enc over key-management x content-encryption x zip x aad x plaintext lengths (0, 1, 15, 16, 17, 4352[, 70000]) with parameters in protected or split headers; every recipient key decrypts in jose AND on the independent model; ciphertext and tag bit-identical to the model's re-encryption under the same CEK and IV; model-produced tokens decrypt in jose; RFC 7520 section 5 examples; two-recipient tokens, one call with a key set (array / JWKSet) x recipient template forms, a foreign key, and re-wrapping of a recovered CEK to a third recipient",
                          dist=dist)
     # ---- public-key recipients: jose decrypts (oracle); a sample also on the BigZ model
     impl = G.harness(bdir, pk_cases)
